@@ -24,8 +24,10 @@ izmax1_(int *n, doublecomplex *cx, int *incx)
     Purpose   
     =======   
 
-    IZMAX1 finds the index of the element whose real part has maximum   
-    absolute value.   
+    IZMAX1 finds the index of the first vector element of maximum
+    absolute value (complex modulus), as LAPACK 3.6 and later do. Using the
+    real part alone lets ?LACON pick a poor unit vector, after which its
+    estimate can drop below the one from its first step.
 
     Based on IZAMAX from Level 1 BLAS.   
     The change is to use the 'genuine' absolute value.   
@@ -72,17 +74,17 @@ izmax1_(int *n, doublecomplex *cx, int *incx)
 /*     CODE FOR INCREMENT NOT EQUAL TO 1 */
 
     ix = 1;
-    smax = (d__1 = CX(1).r, fabs(d__1));
+    smax = z_abs(&CX(1));
     ix += *incx;
     i__1 = *n;
     for (i = 2; i <= *n; ++i) {
 	i__2 = ix;
-	if ((d__1 = CX(ix).r, fabs(d__1)) <= smax) {
+	if (z_abs(&CX(ix)) <= smax) {
 	    goto L10;
 	}
 	ret_val = i;
 	i__2 = ix;
-	smax = (d__1 = CX(ix).r, fabs(d__1));
+	smax = z_abs(&CX(ix));
 L10:
 	ix += *incx;
 /* L20: */
@@ -92,16 +94,16 @@ L10:
 /*     CODE FOR INCREMENT EQUAL TO 1 */
 
 L30:
-    smax = (d__1 = CX(1).r, fabs(d__1));
+    smax = z_abs(&CX(1));
     i__1 = *n;
     for (i = 2; i <= *n; ++i) {
 	i__2 = i;
-	if ((d__1 = CX(i).r, fabs(d__1)) <= smax) {
+	if (z_abs(&CX(i)) <= smax) {
 	    goto L40;
 	}
 	ret_val = i;
 	i__2 = i;
-	smax = (d__1 = CX(i).r, fabs(d__1));
+	smax = z_abs(&CX(i));
 L40:
 	;
     }
